@@ -31,6 +31,7 @@ type c10Case struct {
 	Others   []string            `json:"others,omitempty"`   // web: requests served before / concurrently
 	Profile2 string              `json:"profile2,omitempty"` // web: a second (small) and a third (large) profile for
 	Profile3 string              `json:"profile3,omitempty"` //      sessions living in the same process
+	Procs    int                 `json:"procs,omitempty"`    // web conc phase: GOMAXPROCS override (-1 = all CPUs; 0 = derived from the case)
 	Light    bool                `json:"light,omitempty"`    // web: expensive (large-profile) case — fewer rounds per phase
 	RealObj  bool                `json:"real_obj,omitempty"` // the profile's mapping is a real ELF binary of the tree under test; default ObjTool
 	Refs     map[string][]string `json:"refs,omitempty"`     // web: fresh-process references (filled in by the parent)
@@ -649,7 +650,7 @@ func c10Fold(c *Ctx, cs *c10Case, m *c10Model, o *c10Outcome, shrink bool) {
 // ---- runner ----
 
 func runC10(c *Ctx) {
-	c.Res.Rule = "interactive, two script streams on generated profiles (labels, inlining, 1-4 sample types, multi-component absolute file names /build/remote/checkout/proj/src/<pkg>/<file>.go, seven scratch source trees whose basenames are / are not components of those names): (a) ~55% free-form scripts (output file names are reused across commands and shared with output=; user-named files persist between lines and a line's files are those it wrote, byte for byte); (d) 10% undeliverable-output scripts (reports sent to unwritable targets or through missing post-processors, then ordinary probes); (e) 8 FIXED repeat scripts, the same whatever the seed: representative lines (top5, tree3, text2, top 5, peek/list/traces/tags/dot3/callgrind2, o, help) each issued 3 times in one session with other commands and assignments in between, every occurrence probed; (c) 10% file-reuse scripts (long report then short report into the same file, via >file or output=, same command twice); (a cont.) — 50% report commands with focus/ignore/count/-cum/>file arguments, 30% assignments of every option incl. invalid values, shortcuts, built-ins, junk; (b) 40% toggle scripts — ONE option (40% source_path/trim_path, else any of the 31 content-relevant options) re-assigned to 2-3 different output-changing values, v1 v2 v3 v1 …, with the same file-/value-sensitive probe command after every re-assignment (list, weblist, top/tree/dot at file or line granularity, traces, tags, callgrind …) and noise reports in between. Real pprof binary, one process per session; every probed line's transcript+files is compared with a fresh session replaying only the assignment lines before it; the Lean model classifies the lines, predicts the options shown by `o` and what each command's arguments contribute (desugared reference). real-binary stream (3 scripts + 2 web cases per quick run): sample.bin/sample.cpu of the tree with the default binutils ObjTool, list/weblist/disasm and /source,/disasm repeated within one session/process; web: each case in five child processes (ref / seq / conc / stall / multi), non-URL options as flags, every 4th profile large enough for pages > 64 KiB: references from a process that serves only the probed requests; r after other requests; the first 12 page renders of a process simultaneously, then r alone, then r among the others; responses still being written to a stalling slow-client ResponseWriter while other URLs are rendered (GOMAXPROCS=1 and N); three sessions over different profiles (A, small B, large C) alive in one process with interleaved requests, each answer vs that profile's fresh-process answer. non-trivial = at least one compared probe is preceded by an executed report command (interactive) / by ≥1 other view request with filter parameters (web); distinct by script text"
+	c.Res.Rule = "interactive, two script streams on generated profiles (labels, inlining, 1-4 sample types, multi-component absolute file names /build/remote/checkout/proj/src/<pkg>/<file>.go, seven scratch source trees whose basenames are / are not components of those names): (a) ~55% free-form scripts (output file names are reused across commands and shared with output=; user-named files persist between lines and a line's files are those it wrote, byte for byte); (d) 10% undeliverable-output scripts (reports sent to unwritable targets or through missing post-processors, then ordinary probes); (e) 10 FIXED scripts: 2 built-in-command scripts (help / o / options / help <x> / bare option names after each other, forwards and backwards, twice) and 8 repeat scripts, the same whatever the seed: representative lines (top5, tree3, text2, top 5, peek/list/traces/tags/dot3/callgrind2, o, help) each issued 3 times in one session with other commands and assignments in between, every occurrence probed; (c) 10% file-reuse scripts (long report then short report into the same file, via >file or output=, same command twice); (a cont.) — 50% report commands with focus/ignore/count/-cum/>file arguments, 30% assignments of every option incl. invalid values, shortcuts, built-ins, junk; (b) 40% toggle scripts — ONE option (40% source_path/trim_path, else any of the 31 content-relevant options) re-assigned to 2-3 different output-changing values, v1 v2 v3 v1 …, with the same file-/value-sensitive probe command after every re-assignment (list, weblist, top/tree/dot at file or line granularity, traces, tags, callgrind …) and noise reports in between. Real pprof binary, one process per session; every probed line's transcript+files is compared with a fresh session replaying only the assignment lines before it; the Lean model classifies the lines, predicts the options shown by `o` and what each command's arguments contribute (desugared reference). real-binary stream (3 scripts + 2 web cases per quick run): sample.bin/sample.cpu of the tree with the default binutils ObjTool, list/weblist/disasm and /source,/disasm repeated within one session/process; web: each case in five child processes (ref / seq / conc / stall / multi), non-URL options as flags, every 4th profile large enough for pages > 64 KiB: references from a process that serves only the probed requests; r after other requests; the first 12 page renders of a process simultaneously, then r alone, then r among the others; responses still being written to a stalling slow-client ResponseWriter while other URLs are rendered (GOMAXPROCS=1 and N); three sessions over different profiles (A, small B, large C) alive in one process with interleaved requests, each answer vs that profile's fresh-process answer. non-trivial = at least one compared probe is preceded by an executed report command (interactive) / by ≥1 other view request with filter parameters (web); distinct by script text"
 	if c.Replay != "" {
 		var cs c10Case
 		if err := c.LoadReplay(&cs); err != nil {
@@ -924,7 +925,8 @@ func c10WebRun(c *Ctx, cs *c10Case) []c10WebOut {
 			r, e := c10WebChild(c, &t)
 			// schedules are not replayable deterministically: when a single case is replayed, the concurrent
 			// phases get up to 8 fresh processes to show what the full run saw
-			for try := 1; c.Replay != "" && try < 8 && (ph == "conc" || ph == "stall") && e == "" && len(r.Findings) == 0; try++ {
+			for try := 1; c.Replay != "" && try < 10 && (ph == "conc" || ph == "stall") && e == "" && len(r.Findings) == 0; try++ {
+				t.Procs = []int{-1, 2, 0}[try%3] // also under the other CPU counts the full run uses
 				r, e = c10WebChild(c, &t)
 			}
 			res[i] = c10WebOut{ph, r, e}
